@@ -346,9 +346,13 @@ fn spawn_worker(prop: &str, tier: &str, seed: u64, workers: u64, index: u64, run
 /// Run the whole batch on `workers` child processes; restart a slot after a crash.
 fn run_pool(prop: &str, tier: &str, seed: u64, workers: u64, runs: u64, hashes: bool, tag: &str) -> Pool {
     let pool = Arc::new(Mutex::new(Pool::default()));
+    // a badly broken tree makes workers die over and over: the first few deaths are
+    // the material for triage, after a dozen the batch is cut short
+    let total_crashes = Arc::new(std::sync::atomic::AtomicU64::new(0));
     let mut handles = Vec::new();
     for w in 0..workers {
         let pool = pool.clone();
+        let total_crashes = total_crashes.clone();
         let prop = prop.to_string();
         let tier = tier.to_string();
         let hashfile = format!("{}/hashes-{}-{}-{}.bin", work_dir(), std::process::id(), tag, w);
@@ -419,7 +423,8 @@ fn run_pool(prop: &str, tier: &str, seed: u64, workers: u64, runs: u64, hashes: 
                     Some(r) => {
                         pool.lock().unwrap().crashes.push((r, code, sig));
                         crashes_here += 1;
-                        if crashes_here >= 8 {
+                        let all = total_crashes.fetch_add(1, AO::Relaxed) + 1;
+                        if crashes_here >= 8 || all >= 12 {
                             // a badly broken tree: enough material, stop exploring this slot
                             return;
                         }
@@ -524,9 +529,16 @@ pub fn cmd_check(args: &Args) -> i32 {
     crashes.sort();
     let mut inconclusive_crashes = 0u64;
     let mut notes: Vec<String> = Vec::new();
+    let mut hangs_triaged = 0;
     for (run, code, sig) in crashes.iter().take(4) {
+        if *code == Some(97) {
+            hangs_triaged += 1;
+            if hangs_triaged > 2 {
+                continue;
+            }
+        }
         let log = format!("{}/crash-{}-{}-{}.log", work_dir(), std::process::id(), prop, run);
-        let a: Vec<String> = vec!["trace-run".into(), "--prop".into(), prop.clone(), "--tier".into(), tier.clone(), "--seed".into(), seed.to_string(), "--run".into(), run.to_string(), "--log".into(), log.clone()];
+        let a: Vec<String> = vec!["trace-run".into(), "--prop".into(), prop.clone(), "--tier".into(), tier.clone(), "--seed".into(), seed.to_string(), "--run".into(), run.to_string(), "--log".into(), log.clone(), "--watchdog".into(), "25".into()];
         match run_child(&a, Duration::from_secs(150)) {
             Ok((c2, s2, stdout, errtail, timed_out)) => match classify_child(c2, s2, &stdout, &errtail, timed_out, &log) {
                 ChildOutcome::Fail(f, steps) => {
